@@ -880,13 +880,13 @@ def hist_configs(ctx):
         old1 = OLD.hex() if i % 2 == 0 else None
         old2 = OLD2.hex() if i % 3 != 1 else None
         cfgs.append((f'names:{n1}|{n2}:empty', [W(n1, [u([])], old1), W(n2, [u([])], old2)], others, 'all'))
-        if ctx.thorough or i < 1:
+        if i < ctx.budget(1, 4):
             cfgs.append((f'names:{n1}|{n2}', [W(n1, [u(['4e31'])], old1), W(n2, [u(['4e32'])], old2)], others, 'all'))
         else:
             cfgs.append((f'names:{n1}|{n2}', [W(n1, [u(['4e31', '4e31'])], old1), W(n2, [u(['4e32'])], old2)], others,
                          ctx.budget(25, 400)))
     three = [W('map.bsp', [u(['4d31'])], OLD.hex()), W('map.vmf', [u(['4d32'])]), W('map.lin', [u(['4d33'])], OLD2.hex())]
-    cfgs.append(('names:three-writers-same-stem', three, {'map.tmp': '747474', 'map': '6d'}, ctx.budget(80, 4000)))
+    cfgs.append(('names:three-writers-same-stem', three, {'map.tmp': '747474', 'map': '6d'}, ctx.budget(80, 2000)))
     cfgs.append(('names:three-writers-same-stem:empty',
                  [W('map.bsp', [u([])], OLD.hex()), W('map.vmf', [u([])]), W('MAP.BSP', [u([])], OLD2.hex())], {'map.tmp': '747474'},
                  ctx.budget(80, 'all')))
